@@ -29,7 +29,7 @@ P = {
          'Noise-free tones >=20 dB above everything else; DC-straddling channel and coarse-centre tones excluded as the property states.', '5/C07'),
  'C08': ('model_checking', 'explicit-state exploration of all chunk compositions and all interleavings of two filterbank objects on the real channelize, FIR+DFT definition in long double as oracle',
          'For every (taps, branches, window, input kind) all 2^(c-1) compositions of the stream into chunks, cache=False calls and cache resets at every position, and all interleavings of two objects are executed on the real PolyphaseFilterbank and compared with the one-shot result and with the O(P^2) definition.',
-         'taps<=4, branches<=16, stream <=7 windows.', '5/C08'),
+         'taps<=4, branches<=16 (thorough: <=32, including 14/22/26 whose transform length is not 5-smooth), stream <=7 windows.', '5/C08'),
  'C09': ('model_checking', 'explicit-state exploration of all quantiser call sequences x refresh periods on the real quantisers against a reference state machine',
          'All call sequences up to the depth bound over a pool of contrasting arrays, for every bit width 2..8, period (negative, zero, positive), prefix length and target; cached statistics and every output integer compared with an affine-round-clip reference with tie tolerance; monotonicity exact.',
          'Rounding ties accepted either way; inputs NaN-free.', '5/C09'),
